@@ -27,7 +27,7 @@ var pool = []text{
 	{"g.yang", `module g { ` + H("g") + ` typedef t { type string { length "1..9"; } } identity base; leaf gr { type identityref { base base; } } leaf l { type t; } container c { leaf x { type int8; } } grouping gg { leaf gl { type t; } } rpc op; }`, "g", true},
 	{"h.yang", `module h { ` + H("h") + ` import g { prefix g; } identity d { base g:base; } grouping hg { leaf hl { type g:t; } } augment /g:c { leaf y { type g:t; } } augment /g:op/g:input { leaf ai { type string; } } container hc { uses g:gg; leaf r { type identityref { base g:base; } } } deviation /g:l { deviate add { default dd; } } }`, "h", true},
 	{"k.yang", `module k { ` + H("k") + ` import h { prefix h; } identity e { base h:d; } container kc { uses h:hg; leaf kr { type identityref { base h:d; } } } }`, "k", true},
-	{"r.yang", `module r { ` + H("r") + ` leaf l { type int8 { range 1..500; } } leaf u { type nosuch; } }`, "r", true},
+	{"r.yang", `module r { ` + H("r") + ` leaf l { type int8 { range 1..500; } } leaf u { type nosuch; } leaf en { type enumeration { enum a { value 1; } enum b { value 1; } enum c; } } typedef bt { type bits { bit x { position 2; } bit y { position 2; } bit z; } } leaf bl { type bt; } }`, "r", true},
 	{"gm.yang", `module gm { ` + H("gm") + ` include gsub; leaf q { type st; } }`, "gm", true},
 	{"gsub.yang", `submodule gsub { belongs-to gm { prefix gm; } import g { prefix g; } typedef st { type g:t; } container sc { leaf sl { type st; } uses g:gg; } }`, "gsub", true},
 	{"syntax.yang", `module s { ` + H("s") + ` leaf l { type string; }`, "", false},
@@ -40,6 +40,7 @@ var pool = []text{
 const (
 	opProcess = -1
 	opRead    = -2
+	opGet     = -3 // GetModule("g"): processes the set and returns the module's tree
 )
 
 func ops() []int {
@@ -47,7 +48,7 @@ func ops() []int {
 	for i := range pool {
 		o = append(o, i)
 	}
-	return append(o, opRead)
+	return append(o, opRead, opGet)
 }
 
 func opName(o int) string {
@@ -56,6 +57,8 @@ func opName(o int) string {
 		return "process"
 	case opRead:
 		return "read"
+	case opGet:
+		return "getmodule(g)"
 	}
 	return "load(" + pool[o].name + ")"
 }
@@ -90,6 +93,39 @@ func batch(loaded []int) string {
 	}
 	batchCache[key] = s
 	return s
+}
+
+var batchGetCache = map[string]string{}
+
+// batchGet: a fresh set given the loaded texts, asked for module g through GetModule.
+func batchGet(loaded []int) string {
+	key := fmt.Sprint(loaded)
+	if v, ok := batchGetCache[key]; ok {
+		return v
+	}
+	ms := yang.NewModules()
+	for _, i := range loaded {
+		if err := ms.Parse(pool[i].body, pool[i].name); err != nil {
+			panic("batchGet: " + err.Error())
+		}
+	}
+	e, errs := ms.GetModule("g")
+	s := getSummary(ms, e, errs)
+	batchGetCache[key] = s
+	return s
+}
+
+func getSummary(ms *yang.Modules, e *yang.Entry, errs []error) string {
+	if len(errs) > 0 {
+		return "getmodule errors:\n" + dump.Errors(errs)
+	}
+	if e == nil {
+		return "getmodule: nil entry without errors"
+	}
+	if e != yang.ToEntry(ms.Modules["g"]) {
+		return "getmodule: an entry that is not the tree of module g"
+	}
+	return dump.Modules(ms, dump.Options{Positions: true})
 }
 
 func summary(ms *yang.Modules, errs []error) string {
@@ -134,6 +170,21 @@ func runHistory(h []int) (f *fail, procs int, steps int) {
 					return
 				}
 				processedOnce = true
+			case opGet:
+				procs++
+				e, errs := ms.GetModule("g")
+				got, want := getSummary(ms, e, errs), batchGet(loaded)
+				if got != want {
+					fp := "getmodule-differs-from-batch"
+					if strings.HasPrefix(want, "getmodule errors") && !strings.HasPrefix(got, "getmodule errors") {
+						fp = "getmodule-errors-lost"
+					}
+					res = &fail{fp, want, got + fmt.Sprintf("\n(after step %d)", step)}
+					return
+				}
+				if len(errs) == 0 || have["g"] {
+					processedOnce = true
+				}
 			case opRead:
 				if !processedOnce {
 					continue
@@ -208,7 +259,7 @@ func run(c *core.Ctx) {
 	var a, b int
 	fmt.Sscanf(c.Shard, "h/%d/%d", &a, &b)
 	D := depth(c.Tier)
-	c.Res.Bound = fmt.Sprintf("all histories of %d operations over {process, read, load(t) for %d texts} (every shorter history ending in process is a checked prefix)", D, len(pool))
+	c.Res.Bound = fmt.Sprintf("all histories of %d operations over {process, getmodule(g), read, load(t) for %d texts} (every shorter history ending in process is a checked prefix)", D, len(pool))
 	all := ops()
 	h := []int{a, b}
 	n := 0
@@ -260,7 +311,7 @@ func classes(h []int) []string {
 	failedLoad, loadAfterProcess := false, false
 	for _, o := range h {
 		switch {
-		case o == opProcess:
+		case o == opProcess || o == opGet:
 			procs++
 		case o >= 0:
 			if !pool[o].valid {
@@ -298,7 +349,7 @@ func replay(tier string, raw json.RawMessage) (bool, string, string) {
 func init() {
 	core.Register(&core.Prop{
 		ID: "C18", Variant: "plain", Shards: shards, Run: run, Replay: replay,
-		Rule:        "every history of the depth bound over the operations process, read and load(t) for a pool of interacting texts (typedef/identity/grouping used across modules, augment into another module and into an rpc input that is not written, deviation, a module with semantic errors, a module with a submodule, and texts that must be rejected: syntax error, unknown statement after typedefs and identities were built, missing mandatory substatement, a re-load, a different text declaring an already loaded module, a newer revision) is executed on one real Modules value; each load's verdict is predicted (valid and not yet loaded <=> nil); after every process the canonical dump, or else the error list together with the dump of the trees as they can be read after the failed run, must equal that of a fresh set given the successfully loaded texts once each in the same order and processed once; read operations must not change the dump. states = distinct histories; transitions = operations executed; non-trivial = histories with two or more process calls",
+		Rule:        "every history of the depth bound over the operations process, getmodule, read and load(t) for a pool of interacting texts (typedef/identity/grouping used across modules, augment into another module and into an rpc input that is not written, deviation, a module with semantic errors, a module with a submodule, and texts that must be rejected: syntax error, unknown statement after typedefs and identities were built, missing mandatory substatement, a re-load, a different text declaring an already loaded module, a newer revision) is executed on one real Modules value; each load's verdict is predicted (valid and not yet loaded <=> nil); after every process the canonical dump, or else the error list together with the dump of the trees as they can be read after the failed run, must equal that of a fresh set given the successfully loaded texts once each in the same order and processed once; GetModule on a loaded module must give the errors or the tree a fresh set gives; read operations must not change the dump. states = distinct histories; transitions = operations executed; non-trivial = histories with two or more process calls",
 		Assumptions: []string{"texts declare one module each (the library documents that a multi-module text may be partly added)", "the batch run on a fresh set is the reference"},
 	})
 }
